@@ -35,7 +35,97 @@ type P = CProblem;
 struct FVal(pub f64);
 impl CustomState<'_> for FVal {}
 
-/// Scripted operand: fixed outcome, records its tag in a shared log every time it is evaluated.
+/// Two more observed u32 states (same target type as Iterations / Evaluations).
+#[derive(Clone, Deref, DerefMut, Tid)]
+struct ObsA(pub u32);
+impl CustomState<'_> for ObsA {}
+#[derive(Clone, Deref, DerefMut, Tid)]
+struct ObsB(pub u32);
+impl CustomState<'_> for ObsB {}
+
+type EvLog = Arc<Mutex<Vec<String>>>;
+
+/// Evaluates a condition when executed and logs `(index verdict)`; initialises it in `init`
+/// (as `Loop` and `Branch` do with their condition).
+#[derive(Clone)]
+struct EvalComp { idx: u64, cond: Box<dyn Condition<P>>, log: EvLog }
+impl Serialize for EvalComp {
+    fn serialize<S: serde::Serializer>(&self, s: S) -> Result<S::Ok, S::Error> { s.serialize_unit() }
+}
+impl Component<P> for EvalComp {
+    fn init(&self, problem: &P, state: &mut State<P>) -> ExecResult<()> { self.cond.init(problem, state) }
+    fn execute(&self, problem: &P, state: &mut State<P>) -> ExecResult<()> {
+        let r = res(self.cond.evaluate(problem, state));
+        self.log.lock().unwrap().push(format!("({} {})", self.idx, r));
+        Ok(())
+    }
+}
+/// Re-initialises a condition when executed (what `Loop::execute` does on entry).
+#[derive(Clone)]
+struct InitComp { cond: Box<dyn Condition<P>> }
+impl Serialize for InitComp {
+    fn serialize<S: serde::Serializer>(&self, s: S) -> Result<S::Ok, S::Error> { s.serialize_unit() }
+}
+impl Component<P> for InitComp {
+    fn execute(&self, problem: &P, state: &mut State<P>) -> ExecResult<()> { self.cond.init(problem, state) }
+}
+/// Writes an observed state.
+#[derive(Clone, Serialize)]
+struct SetComp { lens: u8, v: u32 }
+impl Component<P> for SetComp {
+    fn execute(&self, _problem: &P, state: &mut State<P>) -> ExecResult<()> {
+        match self.lens {
+            0 => { state.set_value::<Iterations>(self.v); }
+            1 => { state.set_value::<Evaluations>(self.v); }
+            2 => { state.set_value::<ObsA>(self.v); }
+            _ => { state.set_value::<ObsB>(self.v); }
+        }
+        Ok(())
+    }
+}
+/// Loop body: counts passes and writes the next scripted value into `ObsA`.
+#[derive(Clone)]
+struct ScriptBody { passes: Arc<AtomicU64>, script: Arc<Mutex<std::collections::VecDeque<u32>>> }
+impl Serialize for ScriptBody {
+    fn serialize<S: serde::Serializer>(&self, s: S) -> Result<S::Ok, S::Error> { s.serialize_unit() }
+}
+impl Component<P> for ScriptBody {
+    fn execute(&self, _problem: &P, state: &mut State<P>) -> ExecResult<()> {
+        self.passes.fetch_add(1, Ordering::SeqCst);
+        if let Some(v) = self.script.lock().unwrap().pop_front() { state.set_value::<ObsA>(v); }
+        Ok(())
+    }
+}
+
+fn lens_id(x: &Sx) -> u8 {
+    match x.atom().unwrap() { "it" => 0, "ev" => 1, "oa" => 2, _ => 3 }
+}
+fn change_of(lens: u8, checker: &Sx) -> Box<dyn Condition<P>> {
+    let ck = || match checker.head() {
+        Some(("de", th)) => DeltaEqChecker::new(th[0].nat().unwrap() as u32),
+        _ => PartialEqChecker::new::<u32>(),
+    };
+    match lens {
+        0 => ChangeOf::new::<P>(ck(), ValueOf::<Iterations>::new()),
+        1 => ChangeOf::new::<P>(ck(), ValueOf::<Evaluations>::new()),
+        2 => ChangeOf::new::<P>(ck(), ValueOf::<ObsA>::new()),
+        _ => ChangeOf::new::<P>(ck(), ValueOf::<ObsB>::new()),
+    }
+}
+fn build_items(items: &[Sx], conds: &[Box<dyn Condition<P>>], log: &EvLog) -> Vec<Box<dyn Component<P>>> {
+    items.iter().map(|it| -> Box<dyn Component<P>> {
+        let (name, a) = it.head().unwrap();
+        match name {
+            "set" => Box::new(SetComp { lens: lens_id(&a[0]), v: a[1].nat().unwrap() as u32 }),
+            "eval" => { let i = a[0].nat().unwrap(); Box::new(EvalComp { idx: i, cond: conds[i as usize].clone(), log: log.clone() }) }
+            "init" => Box::new(InitComp { cond: conds[a[0].nat().unwrap() as usize].clone() }),
+            "scope" => mahf::components::Scope::new(build_items(a, conds, log)),
+            _ => panic!("unknown item {name}"),
+        }
+    }).collect()
+}
+
+/// Scripted operand: fixed outcome/// Scripted operand: fixed outcome, records its tag in a shared log every time it is evaluated.
 #[derive(Clone, Serialize)]
 struct ScriptCond {
     tag: u64,
@@ -230,6 +320,49 @@ fn run_case(input: &Sx) -> String {
                     outs.push(res(c.evaluate(&problem, &mut state)));
                 }
                 list(outs)
+            }).unwrap_or("panic".into())
+        }
+        "chgm" => {
+            // several ChangeOf conditions in one state, explicit re-initialisations, real Scope components
+            let (_, cs) = a[0].head().unwrap();
+            let conds: Vec<Box<dyn Condition<P>>> = cs.iter().map(|c| {
+                let v = c.items().unwrap();
+                change_of(lens_id(&v[1]), &v[2])
+            }).collect();
+            let (_, items) = a[1].head().unwrap();
+            let log: EvLog = Arc::new(Mutex::new(vec![]));
+            state.insert(Iterations(0));
+            state.insert(Evaluations(0));
+            state.insert(ObsA(0));
+            state.insert(ObsB(0));
+            let root = mahf::components::Block::new(build_items(items, &conds, &log));
+            catch(|| {
+                let r = root.init(&problem, &mut state).and_then(|_| root.execute(&problem, &mut state));
+                let l = log.lock().unwrap().clone();
+                list([tagged("res", [if r.is_ok() { "ok".to_string() } else { "err".to_string() }]), tagged("log", l)])
+            }).unwrap_or("panic".into())
+        }
+        "loopchg" => {
+            // real Loop guarded by ChangeOf over ObsA, entered several times (optionally inside a Scope)
+            let scoped = a[0].atom().unwrap() == "scoped";
+            let entries = a[2].nat().unwrap();
+            let v0 = a[3].nat().unwrap() as u32;
+            let (_, sc) = a[4].head().unwrap();
+            let script: std::collections::VecDeque<u32> = sc.iter().map(|v| v.nat().unwrap() as u32).collect();
+            let passes = Arc::new(AtomicU64::new(0));
+            let body: Box<dyn Component<P>> = Box::new(ScriptBody { passes: passes.clone(), script: Arc::new(Mutex::new(script)) });
+            let lp = Loop::new(change_of(2, &a[1]), body);
+            let comp: Box<dyn Component<P>> = if scoped { mahf::components::Scope::new(vec![lp]) } else { lp };
+            state.insert(ObsA(v0));
+            catch(|| {
+                let mut per_entry = vec![];
+                let mut ok = comp.init(&problem, &mut state).is_ok();
+                for _ in 0..entries {
+                    let before = passes.load(Ordering::SeqCst);
+                    ok &= comp.execute(&problem, &mut state).is_ok();
+                    per_entry.push((passes.load(Ordering::SeqCst) - before).to_string());
+                }
+                list([tagged("res", [if ok { "ok".to_string() } else { "err".to_string() }]), tagged("passes", per_entry)])
             }).unwrap_or("panic".into())
         }
         "chgo" => {
@@ -456,6 +589,105 @@ fn main() {
             cur.to_string()
         }).collect();
         emit(site_of(&c), format!("(chg {c} {})", tagged("vals", vals)));
+    }
+
+    //    ... with re-initialisations: all histories of length <= 5 over {observe 5, 6, 8, re-init}
+    for ck in ["pe", "(de 1)", "(de 2)"] {
+        for len in 0..=5usize {
+            let mut idx = vec![0usize; len];
+            loop {
+                let items: Vec<String> = idx.iter().map(|&i| match i {
+                    3 => "(init 0)".to_string(),
+                    i => format!("(set oa {}) (eval 0)", vals3[i]),
+                }).collect();
+                emit("ChangeOf::reinit", format!("(chgm (conds (c oa {ck})) (items {}))", items.join(" ")));
+                let mut k = 0;
+                while k < len { idx[k] += 1; if idx[k] < 4 { break; } idx[k] = 0; k += 1; }
+                if k == len { break; }
+            }
+        }
+    }
+    //    ... several conditions over different lenses of the same value type in one state, interleaved
+    let lenses = ["it", "ev", "oa", "ob"];
+    let cks = ["pe", "(de 1)", "(de 2)", "(de 3)", "pe"];
+    {
+        // exhaustive: two conditions (Iterations / Evaluations), sequences of length <= 5 over
+        // {A sees 5, A sees 6, B sees 5, B sees 6, re-init A}
+        let toks = ["(set it 5) (eval 0)", "(set it 6) (eval 0)", "(set ev 5) (eval 1)", "(set ev 6) (eval 1)", "(init 0)"];
+        for len in 1..=5usize {
+            let mut idx = vec![0usize; len];
+            loop {
+                let items: Vec<&str> = idx.iter().map(|&i| toks[i]).collect();
+                emit("ChangeOf::multi", format!("(chgm (conds (c it pe) (c ev pe)) (items {}))", items.join(" ")));
+                let mut k = 0;
+                while k < len { idx[k] += 1; if idx[k] < toks.len() { break; } idx[k] = 0; k += 1; }
+                if k == len { break; }
+            }
+        }
+    }
+    for _ in 0..(if t { 30_000 } else { 3_000 }) {
+        let nc = 2 + r.below(3) as usize; // 2..4 conditions, pairwise different lenses
+        let start = r.below(4) as usize;
+        let conds: Vec<String> = (0..nc).map(|i| format!("(c {} {})", lenses[(start + i) % 4], r.pick(&cks))).collect();
+        let n = 4 + r.below(24);
+        let items: Vec<String> = (0..n).map(|_| match r.below(10) {
+            0..=3 => format!("(set {} {})", lenses[(start + r.below(nc as u64) as usize) % 4], 4 + r.below(5)),
+            4..=8 => format!("(eval {})", r.below(nc as u64)),
+            _ => format!("(init {})", r.below(nc as u64)),
+        }).collect();
+        emit("ChangeOf::multi", format!("(chgm (conds {}) (items {}))", conds.join(" "), items.join(" ")));
+    }
+    //    ... inside real Scope components: the scope's own ChangeOf shadows the outer one
+    for _ in 0..(if t { 30_000 } else { 3_000 }) {
+        // cond 0 and cond 1 observe the same lens (oa) but are never used on the same registry level;
+        // cond 2 observes ob and is used anywhere
+        let conds = format!("(c oa {}) (c oa {}) (c ob {})", r.pick(&cks), r.pick(&cks), r.pick(&cks));
+        fn gen(r: &mut Sm, depth: u32, own: u64) -> String {
+            let n = 2 + r.below(7);
+            let items: Vec<String> = (0..n).map(|_| match r.below(12) {
+                0..=2 => format!("(set oa {})", 4 + r.below(4)),
+                3 => format!("(set ob {})", 4 + r.below(4)),
+                4..=6 => format!("(eval {own})"),
+                7 => "(eval 2)".to_string(),
+                8 => format!("(init {own})"),
+                _ if depth < 2 => { let o = if r.chance(1, 2) { own } else { 1 - own }; format!("(scope {})", gen(r, depth + 1, o)) }
+                _ => format!("(eval {own})"),
+            }).collect();
+            items.join(" ")
+        }
+        let body = gen(&mut r, 0, 0);
+        emit("ChangeOf::scope", format!("(chgm (conds {conds}) (items {body}))"));
+    }
+    for (vs, tail) in [("5", "(eval 0)"), ("5", "(set oa 6) (eval 0)"), ("6", "(eval 0) (eval 0)")] {
+        // hand-written: outer reports 5, a scope observes the same value with its own condition (must fire), outer unchanged afterwards
+        for inner in [0, 1] {
+            emit("ChangeOf::scope", format!("(chgm (conds (c oa pe) (c oa pe)) (items (set oa 5) (eval 0) (scope (eval {inner}) (set oa {vs}) (eval {inner})) {tail}))"));
+        }
+    }
+    //    ... two conditions over the SAME lens on the same registry level (they share Previous<L>)
+    for _ in 0..(if t { 3_000 } else { 300 }) {
+        let conds = format!("(c oa {}) (c oa {})", r.pick(&cks), r.pick(&cks));
+        let n = 3 + r.below(10);
+        let items: Vec<String> = (0..n).map(|_| match r.below(10) {
+            0..=3 => format!("(set oa {})", 4 + r.below(5)),
+            4..=8 => format!("(eval {})", r.below(2)),
+            _ => format!("(init {})", r.below(2)),
+        }).collect();
+        emit("ChangeOf::shared_lens", format!("(chgm (conds {conds}) (items {}))", items.join(" ")));
+    }
+    //    ... a real Loop guarded by ChangeOf, entered 1..3 times, plain and inside a Scope
+    for mode in ["plain", "scoped"] { for ck in ["pe", "(de 1)", "(de 2)"] { for entries in 1..=3u64 {
+        for script in ["", "7", "7 7", "7 8", "8 7 7", "7 8 9 9 7", "7 9 7 9"] {
+            emit("Loop::change_of", format!("(loopchg {mode} {ck} {entries} 7 (script {script}))"));
+        }
+    } } }
+    for _ in 0..(if t { 5_000 } else { 500 }) {
+        let mode = if r.chance(1, 2) { "plain" } else { "scoped" };
+        let ck = ["pe", "(de 1)", "(de 2)", "(de 3)"][r.below(4) as usize];
+        let n = r.below(12);
+        let mut cur = 4 + r.below(4);
+        let script: Vec<String> = (0..n).map(|_| { if r.chance(1, 2) { cur = 4 + r.below(5); } cur.to_string() }).collect();
+        emit("Loop::change_of", format!("(loopchg {mode} {ck} {} {} (script {}))", 1 + r.below(4), 4 + r.below(4), script.join(" ")));
     }
 
     //    ... and over objective values (f64 inside SingleObjective), incl. +inf
